@@ -257,6 +257,47 @@ def list_dotted_names(fn: Callable) -> Set[str]:
                 if "." in symbol and symbol[0 : symbol.find(".")] in local_vars
             }
             result.difference_update(to_remove)
+            # Nested scopes (inner functions, lambdas, comprehensions, classes) have locals of
+            # their own, which the syntax tree does not tell apart from globals: keep only
+            # what some code object of this function actually looks up as a global
+            global_names = set()  # type: Set[str]
+            code_objects = [code_obj]
+            while code_objects:
+                nested_code = code_objects.pop()
+                global_names.update(
+                    instruction.argval
+                    for instruction in dis.get_instructions(nested_code)
+                    if instruction.opname in ("LOAD_GLOBAL", "LOAD_NAME")
+                )
+                code_objects.extend(
+                    const
+                    for const in nested_code.co_consts
+                    if isinstance(const, CodeType)
+                )
+            # (decorators, default values and annotations are evaluated outside the
+            # function's own code: the names they mention count as well)
+            for node in ast.walk(parsed):
+                if isinstance(node, (ast.FunctionDef, ast.AsyncFunctionDef, ast.Lambda)):
+                    header = list(getattr(node, "decorator_list", []))
+                    header += node.args.defaults + [d for d in node.args.kw_defaults if d]
+                    header += [
+                        a.annotation
+                        for a in node.args.posonlyargs
+                        + node.args.args
+                        + node.args.kwonlyargs
+                        + [node.args.vararg, node.args.kwarg]
+                        if a is not None and a.annotation is not None
+                    ]
+                    if getattr(node, "returns", None) is not None:
+                        header.append(node.returns)
+                    for expression in header:
+                        global_names.update(
+                            n.id for n in ast.walk(expression) if isinstance(n, ast.Name)
+                        )
+                    break
+            result = {
+                symbol for symbol in result if symbol.split(".")[0] in global_names
+            }
 
         _dotted_names_cache[fn] = result
         return result
